@@ -1,5 +1,7 @@
 """Per-property family descriptions."""
 import json
+import os
+import vlib
 
 
 def _world_case(extra_keys):
@@ -328,6 +330,25 @@ C03 = dict(
     assumptions=["one schema (Sc2) and its 960-environment universe; soundness is established for the generated programs, not all programs",
                  "typed ASTs are checked on a quarter of the universe in the quick tier, on all of it in the thorough tier"],
 )
+
+
+def _validate_rand(fam, tier, wd, seed):
+    """R: random type-directed policies (strictly valid ones and a quarter of the rejected ones) through the same family and trace spec"""
+    import randpols
+    n = dict(quick=250, thorough=3000)[tier]
+    cases = [_validate_setup(fam["_world"])]
+    for i, s in enumerate(randpols.singles(wd, seed, n)):
+        cases.append(dict(id=100000 + i, policy=dict(s["policy"], id="p"), must=False))
+    cpath = os.path.join(wd, "rand.cases.ndjson")
+    tpath = os.path.join(wd, "rand.trace.ndjson")
+    vlib.write_ndjson(cpath, cases)
+    vlib.conform("replay", "validate", cpath, tpath)
+    return [(tpath, "R:typedgen", "Trace_Validate.tla")]
+
+
+C03["extra_traces"] = _validate_rand
+C03["rule"] += (" R: additionally 250 (quick) / 3000 (thorough) random policies from the type-directed generator gen_typed.rs (guards present, dropped, too late, behind ||; "
+                "arithmetic near the i64 bounds; sets, records, membership, is, if-then-else, action literals), validated and evaluated on the same universe.")
 FAMILIES["C03"] = C03
 
 
@@ -605,6 +626,10 @@ C19 = dict(
                  "error messages are not compared, only success/failure and the response"],
 )
 FAMILIES["C19"] = C19
+import props_front; C19["models"] += props_front.MODELS; C19["extra_traces"] = props_front.extra_traces(C19.get("extra_traces"))
+C19["models"][0]["setup"] = props_front.remember_world(C19["models"][0]["setup"])
+C19["rule"] += props_front.RULE; C19["assumptions"] = C19["assumptions"][1:] + props_front.ASSUMPTIONS
+C19["nontrivial"] = lambda ev: ev.get("ev") in ("FfiHist", "Front"); C19["key"] = lambda ev: ev.get("op") or [s.get("op") for s in ev.get("steps", [])]
 import props_c05, props_c12; FAMILIES["C05"] = props_c05.C05; FAMILIES["C12"] = props_c12.C12
 
 
